@@ -6,7 +6,8 @@
                       date-time, a trailing comma)
      tokens_of        the token trees rustc hands to `toml!` for that text
      macro_supported  the spellings the macro has rules for: keys made of identifiers, plain decimal integers,
-                      dashes and quoted strings (and lexing as such); integers within i32; `-hh:mm` / `Z` offsets
+                      dashes and quoted strings (and lexing as such); unsigned and `+` integers within i32, negative
+                      integers down to i64::MIN; `-hh:mm` / `Z` offsets
      eval             what PARSING the text yields: the TOML definition rules of Spec/Defs.v (proved equal to the
                       parser's state machine in C09), numbers by the TOML rules, date-times by the document grammar;
                       None for a document that is not (decidedly) valid
@@ -20,7 +21,7 @@
    compiled inside toml!{..} by rustc against the working tree, compared with the runtime parse (the oracle) and
    with `macro_eval` / `eval` of the extracted model. *)
 From TV Require Import Base.Prelude Base.Utf8 Model.Datetime Model.DatetimeStd Model.Numbers Model.Macro Spec.Defs Spec.MacroSpec.
-From TV Require Import Proofs.MacroSem Proofs.MacroExamples Proofs.MacroEval Proofs.MacroStmt Proofs.MacroDoc Proofs.MacroDt Proofs.MacroEq Proofs.MacroTop.
+From TV Require Import Proofs.MacroSem Proofs.MacroExamples Proofs.MacroEval Proofs.MacroStmt Proofs.MacroScalar Proofs.MacroDoc Proofs.MacroDt Proofs.MacroEq Proofs.MacroTop.
 
 (* ---- THE CLAIM: macro = parse, for every supported valid document ---- *)
 Theorem C19_macro_eq_parse : forall l t,
@@ -81,12 +82,11 @@ Theorem C19_int_key_refuted :
 Proof. exact int_key_refuted. Qed.
 Print Assumptions C19_int_key_refuted.
 
-(* `a = -2147483649`: the negated literal is an i32 and wraps silently: 2147483647 *)
-Theorem C19_negative_wrap_refuted :
-  exists l t t', forallb (fun s => match s with AKeyVal p (AInt SgMinus x) => path_ok p && int_text_ok x | _ => false end) l = true
-                 /\ eval l = Some t /\ macro_eval (tokens_of l) = EOk t' /\ t <> t'.
-Proof. exact negative_wrap_refuted. Qed.
-Print Assumptions C19_negative_wrap_refuted.
+(* ---- negative integers: every one TOML accepts is supported and gets its value (repaired: `macros::number`) ---- *)
+Theorem C19_negative_integers : forall t z, int_meaning SgMinus t = Some z ->
+  int_ok SgMinus t = true /\ val_ev (AInt SgMinus t) (MInt z) 1.
+Proof. exact negative_integers. Qed.
+Print Assumptions C19_negative_integers.
 
 (* ---- the hypotheses are satisfiable; on these documents model macro = eval also by plain computation ---- *)
 Example ex_mixed_ok : macro_supported ex_mixed = true /\ exists t, eval ex_mixed = Some t /\ macro_eval (tokens_of ex_mixed) = EOk t.
@@ -94,6 +94,8 @@ Proof. split; [reflexivity|]. eexists; split; vm_compute; reflexivity. Qed.
 Example ex_datetimes_ok : macro_supported ex_datetimes = true /\ exists t, eval ex_datetimes = Some t /\ macro_eval (tokens_of ex_datetimes) = EOk t.
 Proof. split; [reflexivity|]. eexists; split; vm_compute; reflexivity. Qed.
 Example ex_numbers_ok : macro_supported ex_numbers = true /\ exists t, eval ex_numbers = Some t /\ macro_eval (tokens_of ex_numbers) = EOk t.
+Proof. split; [reflexivity|]. eexists; split; vm_compute; reflexivity. Qed.
+Example ex_negative_ok : macro_supported ex_negative = true /\ exists t, eval ex_negative = Some t /\ macro_eval (tokens_of ex_negative) = EOk t.
 Proof. split; [reflexivity|]. eexists; split; vm_compute; reflexivity. Qed.
 Example ex_aot_ok : macro_supported ex_aot = true /\ exists t, eval ex_aot = Some t /\ macro_eval (tokens_of ex_aot) = EOk t.
 Proof. split; [reflexivity|]. eexists; split; vm_compute; reflexivity. Qed.
